@@ -119,3 +119,20 @@ PROPS['C14'] = dict(
     technique='online trace monitor (ordering, omission, agreement with direct lookup) over iterator executions vs. reference model; release + debug-assertion builds',
     design_ref='DESIGN.md section 4, C14',
 )
+
+PROPS['C02'] = dict(
+    sub='c02',
+    quick=[S('rel'), S('dbg', 'day_stride=8')],
+    thorough=[S('rel'), S('dbg')],
+    rule='boundary-exhaustive: for every day of the civil range (dbg quick: every 8th + 400 days around the epoch and both limits) and 26 offsets (0, +-1s, +-59s, +-1h, +-5:30, +-12h, +-24h, +-25:59:59, 8 seeded) the instants '
+         'local midnight -1ns / 0 / +1ns through Offset::to_datetime and back through Offset::to_timestamp; every second of days MIN+1, -1, 0, MAX-1 x ns {0,1,999999999}; seeded (instant, offset) pairs; '
+         'all 187,199 offsets at 4 instants (thorough; strided in quick); civil datetimes within 52 h of DateTime::MIN/MAX at 1 s steps for the Ok/Err boundary; (second, nanosecond) constructor grid and unit constructors at the limits; '
+         'all views against one i128 nanosecond count. distinct_nontrivial = distinct day boundaries crossed + distinct seeded instants whose views were checked',
+    exhaustive='day boundaries of all 7,304,485 days x 26 offsets in flavour rel; other sub-spaces sampled',
+    floors={'any': {'day_boundaries': 7304485}},
+    assumptions=COMMON_ASSUME,
+    level_text='Reference-model monitoring with boundary-exhaustive inputs: every local-midnight crossing of every day for 26 offsets, every second of four critical days and millions of seeded pairs are converted both ways by the real code and compared with exact i128 nanosecond arithmetic + the odometer-checked calendar.',
+    level_note='Trusted base: cal.rs and i128 arithmetic. Timestamp::constant is only compared where Timestamp::new is Ok (its out-of-range behaviour is a panic contract, not part of the statement).',
+    technique='reference-model monitor (i128 nanoseconds + calendar) over boundary-exhaustive and seeded inputs; release + debug-assertion builds',
+    design_ref='DESIGN.md section 4, C02',
+)
